@@ -5,8 +5,10 @@ package main
 
 import (
 	"fmt"
+	"go/constant"
 	"go/token"
 	"go/types"
+	"regexp"
 	"sort"
 	"strings"
 
@@ -1099,6 +1101,8 @@ func runLinkRules(c *Ctx) {
 
 func runParserGuards(c *Ctx) {
 	runVehicleIdentity(c)
+	runOneZonePerMessage(c)
+	runPresenceByPointer(c)
 	p := c.P
 	type guard struct {
 		spec   string
@@ -1167,7 +1171,10 @@ func runVehicleIdentity(c *Ctx) {
 	for _, f := range fnsByClass(realtimeFns(c), "(*proto.VehicleDescriptor)→(*gtfs.VehicleID)") {
 		n++
 		fname := shortName(f)
-		tb, err := extractTableCut(f)
+		tb, err := c.extractTableComposed(f, 0) // the conversion may be split into a (value, ok) helper
+		if err != nil {
+			tb, err = extractTableCut(f)
+		}
 		if err != nil {
 			c.Undecided("GUARD", fname, "an identifier is never all-empty", p.pos(f.Pos()), err.Error())
 			continue
@@ -1205,9 +1212,219 @@ func runVehicleIdentity(c *Ctx) {
 			}
 		}
 		c.Check(ok && sawNonNil, "GUARD", fname, "an identifier is never all-empty", p.pos(f.Pos()), "every non-nil VehicleID is returned after the all-empty case was ruled out", detail)
+		// the identifier is the map key under which mentions of one vehicle are unified: it is built from the
+		// identifying wire fields (id, label, licence plate) only. A further descriptor field in the key makes two
+		// mentions of one vehicle that differ in that field two vehicles.
+		{
+			bd := newBinder(c)
+			identifying := map[string]bool{"Id": true, "Label": true, "LicensePlate": true}
+			re := regexp.MustCompile(`proto:VehicleDescriptor\.(\w+)`)
+			var extra []string
+			nf := 0
+			for _, g := range c.regionOf(f) {
+				if fnPkgPath(g) != fnPkgPath(f) {
+					continue
+				}
+				for _, blk := range g.Blocks {
+					for _, in := range blk.Instrs {
+						st, isSt := in.(*ssa.Store)
+						if !isSt {
+							continue
+						}
+						fa, isFA := st.Addr.(*ssa.FieldAddr)
+						if !isFA || typeName(fa.X.Type()) != "gtfs.VehicleID" {
+							continue
+						}
+						nf++
+						for _, m := range re.FindAllStringSubmatch(bd.bind(st.Val), -1) {
+							if !identifying[m[1]] {
+								extra = append(extra, fieldName(fa.X.Type(), fa.Field)+" <- "+m[1]+" at "+p.ipos(st))
+							}
+						}
+					}
+				}
+			}
+			if nf > 0 {
+				c.Check(len(extra) == 0, "GUARD", fname, "the identifier holds identifying fields only", p.pos(f.Pos()), fmt.Sprintf("the %d fields of the VehicleID built here come from the descriptor's id, label and licence plate", nf), "the vehicle identifier (the key under which mentions of a vehicle are unified) also carries "+strings.Join(extra, "; ")+": two mentions of one vehicle that differ there become two vehicles and their links split")
+			}
+		}
 	}
 	if n == 0 {
 		c.Undecided("GUARD", "gtfs", "vehicle descriptor conversion", "-", "no function converting *proto.VehicleDescriptor to *gtfs.VehicleID found")
+	}
+}
+
+// runPresenceByPointer: an optional wire field (a pointer in the generated struct) is present when the pointer is
+// non-nil, whatever it points to. A test of the field's *value* against the zero value (`GetTime() != 0`,
+// `*x.Delay != 0`) that decides whether something is written into the result treats an explicit zero (an on-time
+// prediction, the epoch) as absent.
+func runPresenceByPointer(c *Ctx) {
+	p := c.P
+	isZero := func(v ssa.Value) bool {
+		k, ok := v.(*ssa.Const)
+		if !ok || k.Value == nil {
+			return false
+		}
+		switch k.Value.Kind() {
+		case constant.Int, constant.Float:
+			return constant.Sign(k.Value) == 0
+		case constant.String:
+			return constant.StringVal(k.Value) == ""
+		}
+		return false
+	}
+	// optionalValue: v is the value of an optional scalar wire field: a generated getter of a pointer-typed field, or a
+	// dereference of such a field
+	optionalValue := func(v ssa.Value) string {
+		switch x := v.(type) {
+		case *ssa.Call:
+			cal := x.Call.StaticCallee()
+			if cal == nil || !isProtoPkg(fnPkgPath(cal)) || len(cal.Params) != 1 {
+				return ""
+			}
+			st := structOf(cal.Params[0].Type())
+			idx := -1
+			if st != nil && strings.HasPrefix(cal.Name(), "Get") {
+				// generated getter Get<F> of field <F> (for an optional scalar: `if x != nil && x.F != nil { return *x.F }`)
+				for i := 0; i < st.NumFields(); i++ {
+					if st.Field(i).Name() == cal.Name()[3:] {
+						idx = i
+					}
+				}
+			}
+			if idx < 0 {
+				return ""
+			}
+			if pt, isPtr := st.Field(idx).Type().Underlying().(*types.Pointer); isPtr {
+				if _, basic := pt.Elem().Underlying().(*types.Basic); basic {
+					return typeName(cal.Params[0].Type()) + "." + st.Field(idx).Name()
+				}
+			}
+		case *ssa.UnOp:
+			if x.Op != token.MUL {
+				return ""
+			}
+			ld, ok := x.X.(*ssa.UnOp)
+			if !ok || ld.Op != token.MUL {
+				return ""
+			}
+			fa, ok := ld.X.(*ssa.FieldAddr)
+			if !ok || !isProtoPkg(pkgOfType(fa.X.Type())) {
+				return ""
+			}
+			if _, basic := deref(deref(fa.Type())).Underlying().(*types.Basic); basic {
+				return typeName(fa.X.Type()) + "." + fieldName(fa.X.Type(), fa.Field)
+			}
+		}
+		return ""
+	}
+	n, nTests := 0, 0
+	for _, f := range realtimeFns(c) {
+		for _, blk := range f.Blocks {
+			hasStore := false
+			var first *ssa.Store
+			for _, in := range blk.Instrs {
+				if st, ok := in.(*ssa.Store); ok {
+					if fa, isFA := st.Addr.(*ssa.FieldAddr); isFA && !isProtoPkg(pkgOfType(fa.X.Type())) && strings.HasPrefix(pkgOfType(fa.X.Type()), modPath) {
+						hasStore = true
+						if first == nil {
+							first = st
+						}
+					}
+				}
+			}
+			if !hasStore {
+				continue
+			}
+			n++
+			for _, ce := range dominatingConds(blk) {
+				bo, ok := ce.Cond.(*ssa.BinOp)
+				if !ok || (bo.Op != token.NEQ && bo.Op != token.EQL) || ce.Composite {
+					continue
+				}
+				var fld string
+				if isZero(bo.Y) {
+					fld = optionalValue(bo.X)
+				} else if isZero(bo.X) {
+					fld = optionalValue(bo.Y)
+				}
+				if fld == "" {
+					continue
+				}
+				nTests++
+				if (bo.Op == token.NEQ) == ce.Val {
+					c.Violated("GUARD", shortName(f), "presence of "+fld+" decided by the pointer", p.ipos(first), "the result is written only when the value of the optional wire field "+fld+" differs from the zero value: a field that is present with the value zero (an on-time prediction, the epoch, an empty string) is reported as absent. Presence is `field != nil`")
+				}
+			}
+		}
+	}
+	c.Stats["blocks writing result fields examined for value-as-presence tests"] = n
+	if nTests == 0 {
+		c.Proved("GUARD", "gtfs", "presence of optional wire fields decided by the pointer", "-", fmt.Sprintf("%d blocks that write result fields: none is guarded by a comparison of an optional field's value with the zero value", n))
+	}
+}
+
+// runOneZonePerMessage: a trip identifier carries its start date as a time.Time, and identifiers are map keys and are
+// compared with ==, which compares the Location pointer. All times of one message must therefore carry one Location
+// object: a Location constructor (time.LoadLocation, time.FixedZone, time.LoadLocationFromTZData) in the realtime code
+// may run at most once per message -- in the entry function, outside every loop. Run per descriptor, two mentions of
+// one trip with a start date get different keys.
+func runOneZonePerMessage(c *Ctx) {
+	p := c.P
+	entries := map[*ssa.Function]bool{}
+	for _, f := range c.anchors("gtfs:ParseRealtime") {
+		entries[f] = true
+	}
+	ctors := map[string]bool{"time.LoadLocation": true, "time.FixedZone": true, "time.LoadLocationFromTZData": true}
+	n := 0
+	inRealtime := map[*ssa.Function]bool{}
+	for _, f := range realtimeFns(c) {
+		inRealtime[f] = true
+	}
+	// once: the block runs at most once per message: it is in no loop, and its function is the entry or is called
+	// only from such blocks
+	var once func(f *ssa.Function, blk *ssa.BasicBlock, d int) bool
+	once = func(f *ssa.Function, blk *ssa.BasicBlock, d int) bool {
+		if d > 4 {
+			return false
+		}
+		for _, l := range naturalLoops(f) {
+			if l.Blocks[blk] {
+				return false
+			}
+		}
+		if entries[f] {
+			return true
+		}
+		sites := 0
+		for _, e := range p.Callers(f) {
+			if e.Caller == nil || !inRealtime[e.Caller] {
+				continue
+			}
+			sites++
+			if sites > 1 || !once(e.Caller, e.Site.Block(), d+1) {
+				return false
+			}
+		}
+		return sites == 1
+	}
+	for _, f := range realtimeFns(c) {
+		var loops []*Loop
+		for _, blk := range f.Blocks {
+			for _, in := range blk.Instrs {
+				call, ok := in.(*ssa.Call)
+				if !ok || !ctors[calleeName(call)] {
+					continue
+				}
+				n++
+				_ = loops
+				c.Check(once(f, blk, 0), "GUARD", shortName(f), "one Location object per message", p.ipos(call), "the Location is constructed once, in the entry function outside every loop", calleeName(call)+" returns a new Location object on every call, and this call can run more than once per message: trip identifiers carry their start date as a time.Time, and as map keys they are compared with ==, which compares the Location pointer, so two mentions of one trip get different keys (two entries for one trip, links to a stub)")
+			}
+		}
+	}
+	c.Stats["Location constructors in the realtime code"] = n
+	if n == 0 {
+		c.Proved("GUARD", "gtfs", "one Location object per message", "-", "no Location constructor is called in the realtime code: every time of a message carries the caller's Location or time.UTC")
 	}
 }
 
